@@ -397,7 +397,6 @@ func keyList(m map[string]bool) string {
 	return strings.Join(l, ", ")
 }
 
-
 // rootIdentOfCall: the identifier a method-call chain such as R.Addr().Interface() or R.Index(i) starts at.
 func rootIdentOfCall(ce *ast.CallExpr) *ast.Ident {
 	var e ast.Expr = ce
